@@ -1441,7 +1441,12 @@ fn verify_upgrade(
     }
     let extra = &upgrade.additional_nodes;
 
-    iter.seek(changeset.roots[changeset.roots.len() - 1].index);
+    let Some(last_root) = changeset.roots.last() else {
+        return Err(HypercoreError::InvalidOperation {
+            context: "Invalid upgrade, it does not cover any blocks".to_string(),
+        });
+    };
+    iter.seek(last_root.index);
     i = 0;
 
     while i < extra.len() && extra[i].index == iter.sibling() {
